@@ -15,7 +15,7 @@
 
 #define MAXMU 256
 enum { ST_UNUSED, ST_RUN, ST_FIN };
-enum { OP_NONE, OP_START, OP_LOCK, OP_CONDBLOCKED, OP_JOIN, OP_POINT, OP_BCAST, OP_CREATE, OP_SIGNAL };
+enum { OP_NONE, OP_START, OP_LOCK, OP_CONDBLOCKED, OP_JOIN, OP_POINT, OP_BCAST, OP_CREATE, OP_SIGNAL, OP_FUTEX, OP_ONCE };
 
 typedef struct {
   int st, op;
@@ -25,6 +25,7 @@ typedef struct {
   int nfp; /* -1: not set (derive from op), 0..: explicit */
   int kind; /* the harness's label of a pending point (hook kind and argument): part of the state */
   int jt;
+  unsigned fval; /* OP_FUTEX: the value the word must have left for the waiter to continue */
   volatile int go;
   pthread_t real;
   void *(*fn)(void *);
@@ -41,6 +42,13 @@ static struct { void *m; int owner; uint32_t vc[VS_MAXT]; } MU[MAXMU];
 static int nmu = 0;
 static uint32_t VC[VS_MAXT][VS_MAXT];
 static unsigned long cvseq_ctr = 0;
+/* futex words (libstdc++'s std::future/promise/async shared state) and pthread_once controls */
+#define MAXFX 512
+static struct { void *a; uint32_t vc[VS_MAXT]; } FX[MAXFX];
+static int nfx = 0;
+static struct { void *c; int st; int owner; uint32_t vc[VS_MAXT]; } ON[MAXFX]; /* st: 0 not run, 1 running (owner), 2 done */
+static int non = 0;
+int vs_futex_ops = 0; /* modelled futex-word / once operations seen in this scenario */
 
 vs_pt_t vs_pts[VS_MAXPTS];
 int vs_npts = 0;
@@ -50,6 +58,8 @@ int vs_prefix[VS_MAXPTS];
 int vs_nprefix = 0;
 int vs_sleepmode = 0;
 int vs_spurious = 0;
+int vs_unlock_points = 1; /* scheduling point after every mutex release */
+int vs_policy = 0; /* default choice beyond the replayed prefix: 0 = stay on the running thread (canonical), 1 = round robin (next enabled thread id, cyclically): the maximally interleaved deterministic schedule */
 int vs_nthreads_seen = 0;
 vs_race_t vs_races[VS_MAXRACES];
 int vs_nraces = 0;
@@ -72,6 +82,7 @@ static int (*real_ctimedwait)(pthread_cond_t *, pthread_mutex_t *, const struct 
 static int (*real_cclockwait)(pthread_cond_t *, pthread_mutex_t *, clockid_t, const struct timespec *);
 static int (*real_csignal)(pthread_cond_t *);
 static int (*real_cbcast)(pthread_cond_t *);
+static int (*real_once)(pthread_once_t *, void (*)(void));
 static volatile int resolving = 0, resolved = 0;
 static void resolve(void) {
   if (resolved || resolving) return;
@@ -86,6 +97,7 @@ static void resolve(void) {
   real_cclockwait = dlsym(RTLD_NEXT, "pthread_cond_clockwait");
   real_csignal = dlsym(RTLD_NEXT, "pthread_cond_signal");
   real_cbcast = dlsym(RTLD_NEXT, "pthread_cond_broadcast");
+  real_once = dlsym(RTLD_NEXT, "pthread_once");
   resolved = 1;
   resolving = 0;
 }
@@ -112,9 +124,27 @@ static int mu_index(void *m) {
   memset(MU[nmu].vc, 0, sizeof MU[nmu].vc);
   return nmu++;
 }
+static int fx_index(void *a) {
+  for (int i = 0; i < nfx; i++)
+    if (FX[i].a == a) return i;
+  if (nfx >= MAXFX) { fprintf(stderr, "vsched: too many futex words\n"); _exit(99); }
+  FX[nfx].a = a;
+  memset(FX[nfx].vc, 0, sizeof FX[nfx].vc);
+  return nfx++;
+}
+static int once_index(void *c) {
+  for (int i = 0; i < non; i++)
+    if (ON[i].c == c) return i;
+  if (non >= MAXFX) { fprintf(stderr, "vsched: too many once controls\n"); _exit(99); }
+  ON[non].c = c; ON[non].st = 0; ON[non].owner = -1;
+  memset(ON[non].vc, 0, sizeof ON[non].vc);
+  return non++;
+}
 static int enabled(int t) {
   if (T[t].st != ST_RUN) return 0;
   switch (T[t].op) {
+  case OP_FUTEX: return __atomic_load_n((unsigned *)T[t].obj, __ATOMIC_ACQUIRE) != T[t].fval; /* blocked while the word still holds the expected value */
+  case OP_ONCE: { int i = once_index(T[t].obj); return ON[i].st != 1 || ON[i].owner == t; }
   case OP_LOCK: return MU[mu_index(T[t].obj)].owner == -1;
   case OP_CONDBLOCKED: return 0;
   case OP_JOIN: return T[t].jt < 0 || T[T[t].jt].st == ST_FIN;
@@ -183,6 +213,8 @@ static uint64_t state_hash(void) {
     if (T[t].op == OP_POINT) a = mix(a, (uint64_t)T[t].kind);
     if (T[t].st == ST_RUN) b = mix(b, T[t].pc + t);
     if (T[t].op == OP_JOIN) a = mix(a, T[t].jt);
+    if (T[t].op == OP_FUTEX) a = mix(a, ((uint64_t)T[t].fval << 1) + (uint64_t)enabled(t));
+    if (T[t].op == OP_ONCE) a = mix(a, (uint64_t)ON[once_index(T[t].obj)].st);
   }
   for (int i = 0; i < nmu; i++)
     if (MU[i].owner != -1) c2 += mix(17, ((uint64_t)(vs_group_of ? vs_group_of(OP_LOCK, MU[i].m) : i) << 8) + MU[i].owner + 1); /* commutative: the table order depends on the schedule */
@@ -193,7 +225,7 @@ static uint64_t state_hash(void) {
 }
 
 int vs_describe(char *buf, int n) {
-  static const char *opn[] = {"none", "start", "lock", "condwait", "join", "point", "bcast", "create", "signal"};
+  static const char *opn[] = {"none", "start", "lock", "condwait", "join", "point", "bcast", "create", "signal", "futexwait", "once"};
   int k = 0;
   for (int t = 0; t < nthr && k < n - 64; t++) {
     if (T[t].st != ST_RUN) continue;
@@ -266,6 +298,10 @@ static void reschedule(void) {
         if (vs_npts < vs_nprefix) {
           idx = vs_prefix[vs_npts];
           if (idx >= tot) fatal(VS_DIVERGE, VS_EXIT_DIVERGE);
+        } else if (vs_policy == 1 && n > 1) {
+          int best = -1, bestd = 1 << 30;
+          for (int i = 0; i < n; i++) { int d = (en[i] - me + nthr - 1) % nthr; if (en[i] != me && d < bestd) { bestd = d; best = i; } }
+          if (best >= 0) idx = best;
         }
         if (vs_npts >= VS_MAXPTS) fatal(VS_TOOMANYPTS, VS_EXIT_TOOMANY);
         vs_pt_t *p = &vs_pts[vs_npts];
@@ -313,6 +349,9 @@ void vs_begin(void) {
   memset(Z, 0, sizeof Z);
   memset(VC, 0, sizeof VC);
   nmu = 0;
+  nfx = 0;
+  non = 0;
+  vs_futex_ops = 0;
   nthr = 1;
   cur = 0;
   my_tid = 0;
@@ -331,6 +370,7 @@ void vs_end(void) {
   my_tid = -1;
 }
 int vs_active(void) { return modelled(); }
+int vs_thread_done(int t) { return t >= 0 && t < nthr && T[t].st == ST_FIN; }
 int vs_self(void) { return my_tid; }
 void vs_point(int kind, long group) {
   if (modelled()) { T[cur].kind = kind; point(OP_POINT, 0, group); }
@@ -423,6 +463,10 @@ int pthread_mutex_unlock(pthread_mutex_t *m) {
   MU[i].owner = -1;
   memcpy(MU[i].vc, VC[me], sizeof MU[i].vc);
   VC[me][me]++;
+  /* scheduling point AFTER the release: whatever the thread does next without a lock (an unsynchronised read of a flag another
+     thread is about to change, an early return) must be separable from the critical section it has just left - without this point
+     the code from an unlock up to the next synchronisation operation would run atomically with the release */
+  if (vs_unlock_points) { T[me].kind = 500; point(OP_POINT, m, vs_group_of ? vs_group_of(OP_LOCK, m) : -1); }
   return 0;
 }
 static int model_wait(pthread_cond_t *c, pthread_mutex_t *m) {
@@ -496,6 +540,58 @@ int pthread_cond_signal(pthread_cond_t *c) {
     T[best].obj = T[best].obj2;
   }
   return 0;
+}
+/* ---- futex words and once controls ------------------------------------------------------------
+   std::future / std::promise / std::async do not block in a pthread condition variable: libstdc++ parks the waiter with
+   __atomic_futex_unsigned_base::_M_futex_wait_until(addr, val) and wakes it with _M_futex_notify_all(addr) (vsched_cxx.cpp
+   forwards both here), and publishes results through std::call_once = pthread_once. Model: a waiter is enabled iff the word no
+   longer holds `val` (what the kernel checks), a wake is a scheduling point; happens-before: wake -> resumed waiter, and
+   completion of a once routine -> every later caller. Atomic accesses to the word itself are not visible to the monitor. */
+int vs_futex_wait(unsigned *addr, unsigned val) {
+  if (!modelled()) return -1;
+  int me = cur;
+  vs_futex_ops++;
+  T[me].fval = val;
+  point(OP_FUTEX, addr, -1);
+  vc_join(VC[me], FX[fx_index(addr)].vc);
+  return 0;
+}
+int vs_futex_wake(unsigned *addr) {
+  if (!modelled()) return -1;
+  int me = cur;
+  vs_futex_ops++;
+  int i = fx_index(addr);
+  vc_join(FX[i].vc, VC[me]);
+  VC[me][me]++;
+  point(OP_POINT, addr, -1);
+  return 0;
+}
+static void once_cleanup(int *ip) { /* runs on normal return and when an exception unwinds through pthread_once */
+  int i = *ip;
+  if (i >= 0 && ON[i].st == 1) { ON[i].st = 0; ON[i].owner = -1; }
+}
+int pthread_once(pthread_once_t *c, void (*fn)(void)) {
+  resolve();
+  if (!modelled()) return real_once(c, fn);
+  int me = cur;
+  vs_futex_ops++;
+  point(OP_ONCE, c, -1);
+  int i = once_index(c);
+  /* glibc: a pthread_once_t is 0 when fresh and 2 when done. A control that the table remembers as done but that reads as fresh is
+     a new object at a recycled address (a new shared state allocated where a freed one lived) */
+  if (ON[i].st == 2 && *(volatile int *)c == 0) { ON[i].st = 0; memset(ON[i].vc, 0, sizeof ON[i].vc); }
+  if (ON[i].st == 2) { vc_join(VC[me], ON[i].vc); return real_once(c, fn); }
+  ON[i].st = 1;
+  ON[i].owner = me;
+  int guard __attribute__((cleanup(once_cleanup))) = i;
+  int rc = real_once(c, fn); /* never blocks: every other modelled caller is held back by the model until st != 1 */
+  i = once_index(c);
+  ON[i].st = 2;
+  ON[i].owner = -1;
+  memcpy(ON[i].vc, VC[cur], sizeof ON[i].vc);
+  VC[cur][cur]++;
+  guard = -1;
+  return rc;
 }
 static void *tramp(void *p) {
   vthr *t = (vthr *)p;
